@@ -33,12 +33,22 @@ def run(ctx):
     # 3. execute on the real code
     binary = ctx.go_build("c08")
     out = ctx.path("bitmap.ndjson")
+    # cold starts: a fresh process whose first use of the package is a concurrent read round
+    cold = []
+    for i in range(ctx.q(6, 40)):
+        cf = ctx.path("cold%d.ndjson" % i)
+        ctx.harness(binary, ["-cold", "-out", cf, "-seed", ctx.seed * 100 + i], traces=[cf])
+        cold.append(cf)
     ctx.harness(binary, ["-plans", pdir, "-out", out, "-seed", ctx.seed,
                          "-shapes", ctx.q(10, 120), "-words", ctx.q(40, 1500),
-                         "-hist", ctx.q(20, 300), "-ops", ctx.q(40, 60), "-per", ctx.q(1, 2)],
+                         "-hist", ctx.q(20, 300), "-ops", ctx.q(40, 60), "-per", ctx.q(1, 2),
+                         "-race", ctx.q(6, 60)],
                 traces=[out])
     # 4. validate what the real code did
-    traces = ctx.load_traces(out)
+    traces = []
+    for cf in cold:
+        traces += ctx.load_traces(cf)
+    traces += ctx.load_traces(out)
     rj = ctx.validate(fam, "Bitmap_Trace", "Bitmap_Trace.cfg", traces, label="bitmap", chunk=ctx.q(20000, 12000),
                       timeout=1800)
     ctx.judge(rj)
